@@ -65,6 +65,28 @@ PROPS = {
              "thorough": {"checks": 2500, "shards": 16}},
         ],
     },
+    "C07": {
+        "level": "exploration",
+        "rule": "cases are timed histories (2-14 ops) on the Go runtime's virtual clock (faketime build, so every instant is exact and "
+                "repeatable): writes of facts i1/i2 and rule r1 with expiry encoding in {expires number, expires RFC3339 (facts), ttl "
+                "duration string incl. sub-second, ttl number, none} and deltas incl. 0/negative (already expired), a dependent fact d1 "
+                "with deleteWith, get/search/list/event/reload observations, sleeps to E-1s, E-1ns, E, E+1ns, E+1s of a chosen item, "
+                "short sleeps, rarely +40 days; start on or off a second boundary; indexed or linear. Oracle: visible iff floor(now) < E; "
+                "expires value constant across reads and reloads; observed expired items (and dependents stored before E) purged from "
+                "storage; no-expiry items survive; already-expired writes rejected without effect. Non-trivial = an observation within "
+                "1 s of E, or a reload between write and E. Distinct = distinct canonical JSON.",
+        "assumptions": COMMON_ASSUMPTIONS + [
+            "virtual time (runtime faketime): instants are exact; CPU time is invisible to the clock",
+            "an expired item may be purged by the implementation at any instant from E on; dependents added after E are unspecified",
+            "for rules only numeric `expires` and ttl are claimed (the rule schema documents expires as UNIX seconds)",
+            "multi-year idle periods are represented by +40 days (rapid and the testing package bound total virtual run time)",
+        ],
+        "parts": [
+            {"name": "expiry", "mode": "faketime", "test": "TestC07",
+             "quick": {"checks": 1500, "shards": 4},
+             "thorough": {"checks": 20000, "shards": 16}},
+        ],
+    },
     "C08": {
         "level": "exploration",
         "rule": "cases are dependency graphs over ids a..f built from AddFact/AddRule with deleteWith lists (chains, fans, cycles, "
@@ -178,6 +200,11 @@ TEXT = {
         "technique": _PBT + "generated histories x enumerated crash points and injected storage faults (wrapping core.Storage); live-vs-reloaded differential; per-id before/after oracle",
         "level_text": "Fault enumeration inside generated histories: every (thorough) or three drawn (quick) storage-write crash points and storage-call failures per history; reload equivalence after every step. Not a proof.",
         "level_note": "Trusted: fault-injecting storage wrapper (props/faultstore.go), reference model; crash = panic before the k-th write with all later writes dropped.",
+    },
+    "C07": {
+        "technique": _PBT + "generated timed histories on a virtual clock (Go faketime) vs reference model with exact expiry instants; boundary instants hit by construction",
+        "level_text": "Generated exploration of write/observe/reload interleavings around the expiry instant on a harness-owned clock. Not a proof.",
+        "level_note": "Trusted: Go runtime faketime mode (CGO_ENABLED=0, GOMAXPROCS=1), reference model; 3 items + 1 dependent, <= 14 operations.",
     },
     "C08": {
         "technique": _PBT + "generated dependency graphs and deletion orders vs reference transitive-closure model (memory and storage)",
